@@ -43,6 +43,50 @@ def run(ctx, eng):
            bool(selfdep & refusals),
            'ProtocolError iff depends_on == stream id (found %s)'
            % sorted(refusals), node=fv.node)
+    # the two refusals are independent of each other: decision table of the
+    # validator over its own tests
+    if {'weight', 'depends_on', sid} <= set(fv.params):
+        SD = ('eq', 'depends_on', sid)
+        WN = ('other', '(weight is None)')
+        DN = ('other', '(depends_on is None)')
+        HI = cm.key_literal(cm.mk_aff_key('>', {'weight': 1}, -256))
+        LO = cm.key_literal(cm.mk_aff_key('>', {'weight': -1}, 1))
+        cases = []
+        for p in I.run(fv):
+            r = cm.explicit_raise(p)
+            if p.exit == 'raise' and r is None:
+                continue
+            lits = {}
+            for e in p.events:
+                if e.kind == 'assume':
+                    a, pol = cm.literal(e.cond)
+                    if a == ('eq', sid, 'depends_on'):
+                        a = SD
+                    lits[a] = pol
+            cases.append((lits, r is not None))
+
+        def val(asg, lit):
+            v = asg.get(lit[0])
+            return None if v is None else (v if lit[1] else not v)
+
+        def refuse(asg):
+            wn, dn = asg.get(WN), asg.get(DN)
+            sd, hi, lo = asg.get(SD), val(asg, HI), val(asg, LO)
+            if sd is None or hi is None or lo is None:
+                return None
+            # combinations no argument can produce
+            if (wn and (hi or lo)) or (dn and sd) or (hi and lo):
+                return None
+            return bool(sd or ((wn is not True) and (hi or lo)))
+        mm = cm.decision_mismatches(cases, refuse)
+        ctx.ob('ARITH.validate-table', fv.qual, 'the two refusals are '
+               'independent', bool(cases) and not mm,
+               '; '.join('refused=%s where the rule says %s under %s' % (
+                   o, x, {str(k[1:])[:40]: v for k, v in asg.items()})
+                   for asg, o, x in mm[:2]) or
+               'refused iff depends_on == stream id, or weight given and '
+               'outside 1..256 - whatever the other argument is',
+               node=fv.node)
     # ---- prioritize()
     fi = m.func(H + 'prioritize')
     paths = I.run(fi)
